@@ -107,6 +107,26 @@ class Mon:
                 self.samples.append({"case": jsonable(self.case), "observed": jsonable(self._sample)})
         self.case = None
 
+    def subcase(self, case):
+        """Context manager: treat `case` as a case of its own (enumerations inside a scenario)."""
+        mon = self
+
+        class _Sub:
+            def __enter__(self_inner):
+                self_inner.saved = (mon.case, mon._hit, mon._sample)
+                mon.case = case
+                mon._hit = False
+                mon._sample = None
+                mon.evaluations += 1
+                return mon
+
+            def __exit__(self_inner, *a):
+                mon.end_case()
+                mon.case, mon._hit, mon._sample = self_inner.saved
+                return False
+
+        return _Sub()
+
     # -- observations -----------------------------------------------------
     def count(self, name, n=1):
         self.counters[name] += n
@@ -437,7 +457,12 @@ def main(argv):
         "wall_s": round(wall, 2),
         "violations": len(unknown),
     }
-    with open(os.path.join(env.VERIF_DIR, "evidence", f"{prop_id}.json"), "w") as f:
+    evdir = os.path.join(env.VERIF_DIR, "evidence")
+    if env.REPO != "/repo" or os.environ.get("VERIF_NO_EVIDENCE"):
+        # runs against a scratch copy (mutants, pinned tree) never touch the committed evidence
+        evdir = os.path.join(env.VERIF_DIR, ".work", "evidence-alt")
+        os.makedirs(evdir, exist_ok=True)
+    with open(os.path.join(evdir, f"{prop_id}.json"), "w") as f:
         json.dump(evidence, f, indent=1, sort_keys=True)
 
     print(f"{prop_id} tier={tier} seed={seed} shards={nshards} cases={evaluations} "
